@@ -135,6 +135,7 @@ func (fc *FnCtx) execInstr(fr *Frame, st *State, reach string, ins ssa.Instructi
 		fc.derefCheck(fr, reach, a.A, t.Pos())
 		fc.guardedAccess(fr, st, reach, a.A, true)
 		fc.store(st, a.A, fc.value(fr, st, t.Val))
+		fc.structInvStore(fr, st, reach, a.A, t)
 	case *ssa.Slice:
 		fr.vals[t] = fc.nameVal(fc.sliceOp(fr, st, reach, t), t.Name())
 	case *ssa.Convert:
@@ -239,6 +240,10 @@ func (fc *FnCtx) execAlloc(fr *Frame, st *State, t *ssa.Alloc) Val {
 	et := t.Type().(*types.Pointer).Elem()
 	if structOf(et) != nil {
 		ref := fc.newRef(st, "new_"+t.Comment)
+		if fc.freshT == nil {
+			fc.freshT = map[string]types.Type{}
+		}
+		fc.freshT[ref] = et
 		a := &Addr{Kind: AObj, Base: ref, Root: et, T: et}
 		if g := fc.ownedGhost(et); g != "" {
 			fc.storeLoc(st, loc{name: "GH$" + g, idx: []string{ref}, sort: "Int"}, "1")
